@@ -367,7 +367,9 @@ def make_options(cfg, num_iter=None, form="info"):
 
 
 def build(cfg, num_iter=None, form="info"):
-    grid = darsia.Grid(tuple(cfg["shape"]), [float(v) for v in cfg["voxel_size"]])
+    # voxel sizes as Python floats, or - 'voxel_int' - as Python ints (pixel units, nanometres)
+    grid = darsia.Grid(tuple(cfg["shape"]), [int(v) if (cfg.get("voxel_int") and float(v).is_integer() and v >= 1) else float(v)
+                                              for v in cfg["voxel_size"]])
     w = weight_array(cfg)
     wimg = None if w is None else make_image(w, cfg)
     opts = make_options(cfg, num_iter, form)
@@ -712,6 +714,11 @@ class C04Engine(Engine):
             "aa_depth": r.choice([0, 0, 1, 2, 3, 5]), "aa_restart": r.choice([None, None, 2, 3, 4]),
             "pair": {"kind": r.choice(["dense", "dense", "compact", "single"]), "id": r.randint(0, 9999)},
         }
+        if r.random() < 0.08:
+            # integer voxel sizes: small ones (pixels) or nanometres (the cell volume leaves int64 in 3-D)
+            cfg["voxel_int"] = True
+            cfg["voxel_size"] = [float(r.choice([1, 2, 3])) for _ in range(dim)] if (dim < 3 or r.random() < 0.5) else \
+                [float(r.choice([2_100_000, 3_000_000])) for _ in range(dim)]
         if r.random() < 0.3:
             cfg["pair"]["scale"] = r.choice([8.0, 64.0, 0.125])
         if r.random() < 0.15:
